@@ -207,6 +207,8 @@ func (server *Server) ZAdd(conn *redis.Conn, key string, members []*redis.ZSetMe
 	if err != nil {
 		return nil, err
 	}
+	db.Lock()
+	defer db.Unlock()
 	_, zset, err := db.GetZSetRecord(key)
 	if err != nil {
 		return nil, err
@@ -219,6 +221,8 @@ func (server *Server) ZRange(conn *redis.Conn, key string, start int, stop int, 
 	if err != nil {
 		return nil, err
 	}
+	db.Lock()
+	defer db.Unlock()
 	if !db.HasRecord(key) {
 		return redis.NewArrayMessage(), nil
 	}
@@ -243,6 +247,8 @@ func (server *Server) ZRangeByScore(conn *redis.Conn, key string, start float64,
 	if err != nil {
 		return nil, err
 	}
+	db.Lock()
+	defer db.Unlock()
 	if !db.HasRecord(key) {
 		return redis.NewArrayMessage(), nil
 	}
@@ -267,6 +273,8 @@ func (server *Server) ZRem(conn *redis.Conn, key string, members []string) (*red
 	if err != nil {
 		return nil, err
 	}
+	db.Lock()
+	defer db.Unlock()
 	if !db.HasRecord(key) {
 		return redis.NewIntegerMessage(0), nil
 	}
@@ -287,6 +295,8 @@ func (server *Server) ZScore(conn *redis.Conn, key string, member string) (*redi
 	if err != nil {
 		return nil, err
 	}
+	db.Lock()
+	defer db.Unlock()
 	if !db.HasRecord(key) {
 		return redis.NewNilMessage(), nil
 	}
@@ -306,6 +316,8 @@ func (server *Server) ZIncBy(conn *redis.Conn, key string, inc float64, member s
 	if err != nil {
 		return nil, err
 	}
+	db.Lock()
+	defer db.Unlock()
 	_, zset, err := db.GetZSetRecord(key)
 	if err != nil {
 		return nil, err
